@@ -382,6 +382,9 @@ def body_shard(seed, n_examples):
         cfg = ir.gen_cfg(draw, st)
         m = ir.Machine(cfg)
         g = ir.Gen(draw, st, m, p_out_of_domain=0.5, allow_guard=True)
+        # operands stay below the field order: an integer k*p (k != 0) is zero to the field and non-zero to Python, a
+        # disagreement no operand of a real field (254 bits against a bitlength of 16) can reach
+        g.wrap_values = False
         g.guard_forms = ["lc"]
         # prelude: a false guard variable, then a guarded region with a generated body
         out = m.exec_stmt(["in", "priv", "B", 0])
